@@ -26,6 +26,9 @@ type Sorts struct {
 	order      []string          // declaration order of datatype sorts (structs+slices)
 	ifaceNames map[string]*types.Interface
 	byName     map[string]types.Type // "pkg.Name" -> named type (for spec lookups)
+	ProtoMsg   *types.Interface
+	ProtoMsgName string
+	predeclared map[string]bool
 }
 
 type structInfo struct {
@@ -64,6 +67,7 @@ func mangle(s string) string {
 
 // shortName renders a type with package *names* (not paths): system.Integer, *dtpb.Boolean.
 func shortName(t types.Type) string {
+	t = types.Unalias(t)
 	return types.TypeString(t, func(p *types.Package) string { return p.Name() })
 }
 
@@ -411,6 +415,12 @@ func (s *Sorts) Decls() string {
 		}
 	}
 	b.WriteString("))\n")
+	if s.ProtoMsg != nil {
+		nm := "impl_" + mangle(s.ProtoMsgName)
+		fmt.Fprintf(&b, "(declare-fun %s (Int) Bool)\n", nm)
+		s.predeclared = map[string]bool{nm: true}
+		fmt.Fprintf(&b, "(define-fun isProtoMsg ((x Any)) Bool %s)\n", s.Implements(s.ProtoMsg, s.ProtoMsgName, "x"))
+	}
 	if _, ok := s.slices["Slice_Any"]; ok {
 		b.WriteString("(define-fun validColl ((c Slice_Any)) Bool (forall ((i!v Int)) (! (=> (and (<= 0 i!v) (< i!v (len_Any c))) (validItem (select (arr_Any c) i!v))) :pattern ((select (arr_Any c) i!v)))))\n")
 	}
@@ -457,6 +467,9 @@ func (s *Sorts) OtherDecls(query string) string {
 	}
 	sort.Strings(ins)
 	for _, n := range ins {
+		if s.predeclared[n] {
+			continue
+		}
 		if strings.Contains(query, n+" ") {
 			fmt.Fprintf(&b, "(declare-fun %s (Int) Bool)\n", n)
 		}
